@@ -145,15 +145,21 @@ def rule_X2(ctx: Ctx) -> None:
     ctx.judge(r, ok, {"grid_shape": X.U(gs[0]) if gs else None}, "grid shape = image shape // 2 per axis")
     # ---- coordinate recovery
     p = ctx.index.func(f"{LM}.LatticeMaze._from_pixel_grid_with_positions")
-    conds = [n for n in ast.walk(p.node) if isinstance(n, ast.If) and "% 2" in X.U(n.test)]
+    # normalised shape: `[(pos[0] // 2, pos[1] // 2) for pos in <argwhere> if pos[0] % 2 == 1 and pos[1] % 2 == 1]`
+    comps = [n for n in ast.walk(p.node) if isinstance(n, ast.ListComp) and len(n.generators) == 1 and any("% 2" in X.U(t) for t in n.generators[0].ifs)]
     ok = None
     slot = {}
-    if len(conds) == 1:
-        okc, slot = X.relation_in(conds[0].test, ["pos[0] % 2 == 1 and pos[1] % 2 == 1"])
-        app = [c for c in ast.walk(conds[0]) if isinstance(c, ast.Call) and isinstance(c.func, ast.Attribute) and c.func.attr == "append"]
-        rec = X.U(app[0].args[0]).replace(" ", "") if app else None
+    if len(comps) == 1:
+        g0 = comps[0].generators[0]
+        v = X.U(g0.target)
+        test = g0.ifs[0] if len(g0.ifs) == 1 else ast.BoolOp(op=ast.And(), values=list(g0.ifs))
+        okc, slot = X.relation_in(test, [f"{v}[0] % 2 == 1 and {v}[1] % 2 == 1"])
+        rec = X.U(comps[0].elt).replace(" ", "")
         slot["recovered"] = rec
-        ok = okc and rec == "(pos[0]//2,pos[1]//2)"
+        ok = bool(okc) and rec in (f"({v}[0]//2,{v}[1]//2)",)
+    elif [n for n in ast.walk(p.node) if isinstance(n, ast.If) and "% 2" in X.U(n.test)]:
+        ok = False
+        slot = {"recovered": "parity test in an unfamiliar statement shape"}
     ctx.judge(p, ok, slot, "a marked pixel is a cell iff both indices are odd; its cell is (p0 // 2, p1 // 2)",
               "start/end/solution cells are recovered transposed or shifted")
     wm = [s for s in ast.walk(p.node) if isinstance(s, (ast.Assign, ast.AnnAssign)) and "PixelColors.WALL" in X.U(s)]
